@@ -8,6 +8,7 @@ try:
     from pyparsing import (
         CharsNotIn,
         Group,
+        Keyword,
         OneOrMore,
         Optional,
         Suppress,
@@ -403,7 +404,7 @@ class NETReader:
         """
         # Defining an expression for valid word
         word_expr = Word(alphanums + "_" + "-")("nodename")
-        name_expr = Suppress("node ") + word_expr + Optional(Suppress("{"))
+        name_expr = Suppress(Keyword("node")) + word_expr + Optional(Suppress("{"))
 
         word_expr2 = Word(initChars=printables, excludeChars=["(", ")", ",", " "])
         state_expr = ZeroOrMore(word_expr2 + Optional(Suppress(",")))
@@ -421,7 +422,7 @@ class NETReader:
         property_expr = ZeroOrMore(pexpr)  # Creating an expr to find property
 
         variable_property_expr = (
-            Suppress("node ")
+            Suppress(Keyword("node"))
             + Word(alphanums + "_" + "-")("varname")
             + Suppress("{")
             + Group(property_expr)("properties")
